@@ -377,6 +377,24 @@ def check_adapters(s):
             ok = ("item", c, 1) in set(walk(p.ret[1][0])) and ("item", c, 2) in set(walk(p.ret[1][1])) and p.self_attrs.get("state") == ("item", c, 0)
         s.ob("C13.7", con, ok, "reset returns (obs, info) = elements (1, 2) of env.reset and stores element 0 as the state", loc, key="gym-reset-order",
              detail=show(p.ret, maxlen=200))
+    # the adapter re-seeds exactly when a seed is given: the guard must be `seed is not None` (0 is a seed like any other) and the new key
+    # is jr.key(int(seed)); on the other path the key is carried on
+    seeded = [p_ for p_ in live(s.paths(b, "LeraxToGymEnv", "reset")) if p_.conds]
+    guards = {show(t, maxlen=80) for p_ in live(s.paths(b, "LeraxToGymEnv", "reset")) for t, v in p_.conds}
+    want_guard = ("cmp", "IsNot", ("param", "seed"), NONE)
+    okg = all(t in (want_guard, ("cmp", "Is", ("param", "seed"), NONE)) for p_ in live(s.paths(b, "LeraxToGymEnv", "reset")) for t, v in p_.conds) and bool(seeded)
+    s.ob("C13.7", "LeraxToGymEnv.reset", okg, "the adapter re-seeds under `seed is not None` (a truthiness test would ignore seed=0)", s.loc("LeraxToGymEnv", "reset"), key="gym-reset-seed-guard",
+         detail="; ".join(sorted(guards)), necessary_for="the Gymnasium adapter reproduces the adapted environment's trajectory for every seed")
+    for p_ in live(s.paths(b, "LeraxToGymEnv", "reset")):
+        given = any((t == want_guard and v) or (t == ("cmp", "Is", ("param", "seed"), NONE) and not v) for t, v in p_.conds)
+        if not given:
+            continue
+        calls_ = [x for x in walk(p_.ret) if isinstance(x, tuple) and x and x[0] == "call" and x[1] == ("attr", ("attr", self_, "env"), "reset")]
+        kk = dict((k, v) for k, v in calls_[0][3] if k).get("key") if calls_ else None
+        want_key = ("call", ("global", "jax.random.key"), (("call", ("global", "int"), (("param", "seed"),), ()),), ())
+        okk = kk is not None and want_key in set(walk(kk)) and ("attr", self_, "key") not in set(walk(kk))
+        s.ob("C13.7", "LeraxToGymEnv.reset[seed given]", okk, "with a seed the reset key derives from jr.key(int(seed)) alone (not from the adapter's running key)", s.loc("LeraxToGymEnv", "reset"),
+             key="gym-reset-seed-key", detail=show(kk if kk is not None else NONE, maxlen=140))
     # GymToLeraxEnv.transition: io_callback result tuple aligned with the callback's return tuple and the Gymnasium order
     con = "GymToLeraxEnv.transition"
     loc = s.loc("GymToLeraxEnv", "transition")
